@@ -22,6 +22,7 @@ mod gcprobe;
 mod vmgen;
 mod vmrun;
 mod c17;
+mod c15;
 
 use std::path::PathBuf;
 
@@ -75,6 +76,7 @@ fn main() {
         ("gen", "VM") | ("gen", "C03") | ("gen", "C18") => vmrun::gen(&a),
         ("replay", "VM") => vmrun::replay(&a),
         ("gen", "C17") => c17::gen(&a),
+        ("gen", "C15") => c15::gen(&a),
         _ => { eprintln!("unknown command/property"); std::process::exit(2); }
     }
 }
